@@ -2,7 +2,7 @@ NOTES = "See DESIGN.md. Every check: regenerate data from /repo, lake build of t
 NOT_APPLICABLE = {}
 CHECKS = {
     "C01": {
-        "text": "Kernel-checked theorems: whenever the model of EWD returns, its verdict is exact in plain mode (q-reduced form + Dhar burn completeness + maximum-principle argument) and in optimized mode (negative degree unwinnable; degree >= genus winnable via the acyclic burning orientation of degree g-1), both modes agree, is_winnable is exact. Tie: both modes, recording on/off, generated multigraphs x divisors incl. a stratum (chain multigraphs, low degree, heavy adjacent debt) where incomplete debt concentration flips the verdict.",
+        "text": "Kernel-checked theorems: on every connected well-formed multigraph the model of EWD returns for all sufficiently large fuel (termination: debt sweep by least action, firing rounds by a strictly decreasing potential), and whenever it returns its verdict is exact in plain mode (q-reduced form + Dhar burn completeness + maximum-principle argument) and in optimized mode (negative degree unwinnable; degree >= genus winnable via the acyclic burning orientation of degree g-1), both modes agree, is_winnable is exact. Tie: both modes, recording on/off, generated multigraphs x divisors incl. a stratum (chain multigraphs, low degree, heavy adjacent debt) where incomplete debt concentration flips the verdict.",
         "note": "Trusted: Lean kernel, axioms propext/Classical.choice/Quot.sound, fidelity of the hand-written model (checked differentially on this run's inputs only), harness canonicalisation.",
     },
     "C05": {
@@ -23,23 +23,23 @@ CHECKS = {
     },
     "C02": {
         "text": "Kernel-checked theorems on the EWD model: the returned divisor is linearly equivalent to the input with the same degree, its sink has minimum degree, it is q-reduced (no debt off q, no legal set: Dhar burn completeness), q-reduced representatives are unique (so equivalent inputs with the same sink give identical outputs whatever orders the runs used), verdict = no debt at q. is_q_reduced: theorem that the API is constantly True + kernel-checked refutation witness (known finding K1) + the provable half. Tie: EWD / q_reduction / is_q_reduced / is_winnable on generated inputs; oracle: verified reduction w.r.t. every minimum-degree sink.",
-        "note": "hcover (BFS reaches all vertices) and 'the run returns' are hypotheses of the theorems; the model's fidelity is checked differentially on this run's inputs. The 'exactly when' clause for is_q_reduced is refuted, not proved (K1).",
+        "note": "Headline forms (q_reduction_spec) need only: well-formed connected graph, n>0; BFS cover and termination are theorems. The model's fidelity is checked differentially on this run's inputs. The 'exactly when' clause for is_q_reduced is refuted, not proved (K1).",
     },
     "C08": {
         "text": "Kernel-checked theorems: debt concentration stays in the class, keeps the degree and clears V-q whenever it returns; the burn as coded (index-order passes with in-pass updates) returns exactly the union of all legal sets, itself legal; firing it leaves members debt-free; empty iff superstable. Tie: DharAlgorithm.send_debt_to_q / run / get_maximal_legal_firing_set / legal_set_fire / is_superstable for every sink on generated inputs.",
-        "note": "Termination of the borrowing loop is not yet a theorem (fuel-bounded model); non-termination of the code would show as TIMEOUT in the correspondence.",
+        "note": "Termination of the borrowing loop on connected graphs is a theorem (send_debt_total); non-termination of the code would show as TIMEOUT in the correspondence.",
     },
     "C09": {
         "text": "Kernel-checked theorem from the time-stamped burn invariant: the returned orientation is full, acyclic (burn time is a topological order), q is the only source, every other vertex holds fewer chips than its in-degree, in-degrees sum to |E|; unwinnable verdict implies vertex-wise domination by in-degree minus one. Tie: orientation, in/out counters and fullness of every EWD result compared edge by edge, and the certificate re-checked directly on the implementation's output.",
-        "note": "Same hypotheses as C01 (well-formed graph, BFS cover, run returns).",
+        "note": "Headline form certificate_connected: well-formed connected graph; BFS cover is a theorem.",
     },
     "C03": {
-        "text": "Kernel-checked theorems: the rank relation is functional and a class invariant; good degrees are downward closed; the enumeration of effective divisors of degree k is complete and sound; the plain-mode loop returns the Baker-Norine rank (-1 exactly for unwinnable inputs); optimized mode is exact on every branch that does not need Riemann-Roch; in the band where it switches to K-D the value is r(K-D)+deg D+1-g with r(K-D) exact (partial: Riemann-Roch itself is not proved). Tie: rank()/r() in both modes, four degree bands, worker pool real / stubbed / thread pool.",
-        "note": "PARTIAL for the band g..2g-2 in optimized mode and for the 'consequently Riemann-Roch' clause: decided on explored inputs by comparison with the plain mode (proved exact). The deg>2g-2 shortcut is likewise tied, not yet proved. Hypotheses: connected well-formed graph, BFS cover, runs return.",
+        "text": "Kernel-checked theorems: the rank relation is functional and a class invariant; good degrees are downward closed; the enumeration of effective divisors of degree k is complete and sound; the plain-mode loop returns the Baker-Norine rank (-1 exactly for unwinnable inputs); the Riemann-Roch theorem for graphs r(D)-r(K-D)=deg D+1-g (proved in Lean from q-reduced existence, Dhar's certificate and unwinnability of acyclic-orientation divisors, Baker-Norine's argument); every divisor has a rank; r(D)=deg D-g above 2g-2; optimized mode is exact on every branch (shortcut and K-D switch justified by Riemann-Roch); modes agree; computed values satisfy Riemann-Roch. Tie: rank()/r() in both modes, four degree bands, worker pool real / stubbed / thread pool.",
+        "note": "Nothing partial. Hypotheses: connected well-formed graph (Good), the divisor's cached total equals its degree sum (C05), runs return (termination of EWD is a theorem; the enumeration loop is structurally bounded). Worker-pool independence is a runtime fact decided by the tie (pool real / stubbed / threads).",
     },
     "C04": {
-        "text": "Kernel-checked theorems: single game and strategy test are exactly winnability of placement minus one chip / rank>=1 (any placement); compute_gonality returns the least degree of an effective rank>=1 divisor if it is <= the cut-off and -1 otherwise, for both values of find_strategies; every reported strategy is effective, has exactly that many chips and beats every vertex; no smaller placement does; gonality <= |V|; per-sink Dhar strategy test exact. Tie: gonality with cut-offs 0..n+1, games, strategy tests, per-sink tests and minimal-strategy search on generated multigraphs.",
-        "note": "The per-sink minimal-strategy search (find_minimal_winning_strategies / enhanced_dhar_gonality_test) is tied by correspondence only; its exactness theorem is not yet proved.",
+        "text": "Kernel-checked theorems: single game and strategy test are exactly winnability of placement minus one chip / rank>=1 (any placement); compute_gonality returns the least degree of an effective rank>=1 divisor if it is <= the cut-off and -1 otherwise, for both values of find_strategies; every reported strategy is effective, has exactly that many chips and beats every vertex; no smaller placement does; gonality <= |V|; per-sink Dhar strategy test exact; per-sink search (enhanced_dhar_gonality_test / find_minimal_winning_strategies) exact: least number of chips of a surviving non-empty placement off q, strategies = all surviving placements of that size, minimal list = all minimal winners (double-loop invariant incl. the sub-multiset pruning and the one-chip-removal minimality test). Tie: gonality with cut-offs 0..n+1, games, strategy tests, per-sink tests and minimal-strategy search on generated multigraphs.",
+        "note": "Nothing partial. Hypotheses: Good graph, runs return, vt duplicate-free (the code iterates a set difference).",
     },
     "C07": {
         "text": "Kernel-checked theorem: linear_equivalence is True exactly when the divisors sit on the same multigraph and D1-D2 is in the Laplacian lattice (degree-0 winnability = equivalence to 0; optimized EWD exact); equivalence-relation laws, invariance under moves, degree obstruction. Tie: identical / script-related / same-degree-other-class / different-degree / one-side-zero pairs on the same object, an equal copy, a twin multigraph or another graph.",
@@ -74,8 +74,8 @@ CHECKS = {
         "note": "The Dash application (visualize(), callbacks, layout) is not modelled and not claimed.",
     },
     "C19": {
-        "text": "Regenerated from /repo on every run and re-checked by the kernel: closed-form translations = model; the five solids' vertex/edge/regularity counts; tetrahedron and octahedron table entries = gonality of the regenerated graph (verified search + certified hypotheses; cube and K_6 in the thorough tier); K_n closed form n=2..5; independence number maximal. Refutation of the multipartite formula (K2). Tie: bounds report on every connected simple graph n<=4/5 and families to 5/6, bracketed against the verified gonality; closed forms vs gonality of generated graphs.",
-        "note": "PARTIAL: K_n for all n, general multipartite formula, and the bounds (min degree, bramble-1, n-1, n-alpha, aggregates) are decided per explored graph against the verified search, not proved in general (treewidth <= gonality is research-level).",
+        "text": "Regenerated from /repo on every run and re-checked by the kernel: closed-form translations = model; the five solids' vertex/edge/regularity counts; tetrahedron and octahedron table entries = gonality of the regenerated graph (verified search + certified hypotheses; cube and K_6 in the thorough tier); gon(K_n)=n-1 proved for every n>=2 (explicit strategy; |S|(n-|S|)>=n-1 kills every legal set of a sparse placement) for the generated edge list and any presentation, = regenerated closed form; additionally kernel evaluation n=2..5; independence number maximal. Refutation of the multipartite formula (K2). Tie: bounds report on every connected simple graph n<=4/5 and families to 5/6, bracketed against the verified gonality; closed forms vs gonality of generated graphs.",
+        "note": "PARTIAL: general multipartite formula (refuted as coded, K2) and the bounds (min degree, bramble-1, n-1, n-alpha, aggregates) are decided per explored graph against the verified search, not proved in general (treewidth <= gonality is research-level).",
     },
     "C20": {
         "text": "Kernel-checked theorems on order-mirroring machines: set_fire refused iff some name is unknown, wherever it stands (validate-all-then-transfer); configuration refuses the sink; unknown vertices / non-positive amounts refused by every move; refused requests leave divisor, script, graph, orientation exactly as they were (at any point of a history); reverse/divisor on partial orientations refused touching only flags; constructors reject duplicates/unknown names; add_edges per edge (C13). Tie: histories with ~40% invalid requests of every listed kind, digests after every request.",
